@@ -455,6 +455,28 @@ func ruleV4(c *Ctx) {
 		}
 		c.ok("V4", key, fl.At.Pos(), okI && shared == "", fmt.Sprintf("Copy: %s is copied from the same field and shares nothing", dst), detail)
 	}
+	// presence: whether a part is copied depends on its being present (nil / empty), never on its value
+	for _, b := range f.Blocks {
+		iff := lastIf(b)
+		if iff == nil {
+			continue
+		}
+		bo, ok := iff.Cond.(*ssa.BinOp)
+		if !ok {
+			continue
+		}
+		a := m.ap(bo.X)
+		if a.Root != ssa.Value(recv) {
+			continue
+		}
+		if _, isLen := isBuiltinCall(bo.X, "len"); isLen || isNilConst(bo.Y) {
+			continue
+		}
+		if _, isNum := constInt(bo.Y); isNum {
+			c.violate("V4", "presence/"+a.PathString(), iff.Pos(), "Copy decides by presence, not by value, whether to copy "+a.PathString(),
+				"the copy of "+a.PathString()+" depends on its value: an explicitly set zero is dropped by the copy, so an update staged on the copy loses it")
+		}
+	}
 	// completeness
 	var want []string
 	for _, spec := range []string{"LinuxMemory:Memory", "LinuxCPU:Cpu", "HugepageLimit:HugepageLimits", "LinuxPids:Pids"} {
